@@ -37,7 +37,7 @@ SPEC = dict(
                "every packet is either stored or reported; 'acknowledged' only by <a h/>/<resumed h/> with h >= the packet's number (and "
                "conversely); <resumed h/> resp. <enabled/> write exactly the stored packets with number > h resp. all, in order, then <r/>, "
                "before anything later; a reported packet is never written again; <enabled/> renumbers 1..n; every written h equals the "
-               "number of stanzas received since the last <enabled/>. Defect theorem + partial theorem for the strict per-session count.",
+               "number of stanzas received on that session (while stream management was on, since its <enabled/>).",
     level_note="Proved about the hand-written model; model-to-code tie is differential on a real QXmppOutgoingClient driven by a scripted "
                "server (exhaustive to a depth, sampled beyond). Channel/server behaviour, counter wrap and re-entrant continuations are "
                "assumptions, not theorems.",
